@@ -223,6 +223,47 @@ def build_cfg(spec):
     return RunSpaceV1Config(combine=spec["combine"], max_runs=spec["max_runs"], blocks=blocks)
 
 
+def spec_mapping(spec):
+    """The run_space block a user would write in YAML for this specification."""
+    blocks = []
+    for b in spec["blocks"]:
+        e = {"mode": b["mode"], "context": {k: list(v) for k, v in b["context"]}}
+        s = b["source"]
+        if s is not None:
+            src = {"format": s["format"], "path": s["path"], "mode": s["mode"]}
+            if s["select"] is not None:
+                src["select"] = list(s["select"])
+            if s["rename"]:
+                src["rename"] = dict(map(tuple, s["rename"]))
+            e["source"] = src
+        blocks.append(e)
+    return {"combine": spec["combine"], "max_runs": spec["max_runs"], "blocks": blocks}
+
+
+def yaml_glue_problem(spec):
+    """Glue around the modelled core: the specification written as YAML text and parsed by the loader
+    (_parse_run_space_block) must be the configuration object the expansion is defined on.  Returns a
+    description of the difference, or None.  A parser-level rejection of duplicate context keys is not a
+    difference (the expansion rejects those too)."""
+    import yaml
+    from semantiva.configurations.load_pipeline_from_yaml import _parse_run_space_block
+    text = yaml.safe_dump({"run_space": spec_mapping(spec)}, sort_keys=False)
+    block = yaml.safe_load(text)["run_space"]
+    try:
+        parsed = _parse_run_space_block(block)
+    except ValueError as ex:
+        if "Duplicate context key(s) across run_space blocks" in str(ex):
+            return None
+        return "loader rejected the block: %s" % str(ex)[:200]
+    want = build_cfg(spec)
+    if parsed != want:
+        diffs = [f for f in ("combine", "max_runs", "dry_run", "blocks") if getattr(parsed, f, None) != getattr(want, f, None)]
+        return "parsed configuration differs from the written one in %s: parsed %s=%r, written %r" % (
+            diffs, diffs[0] if diffs else "?", getattr(parsed, diffs[0], None) if diffs else None,
+            getattr(want, diffs[0], None) if diffs else None)
+    return None
+
+
 def classify(ex):
     name = type(ex).__name__
     if name == "RunSpaceMaxRunsExceededError":
@@ -652,6 +693,11 @@ def _run(ck, rng, thorough, facts, tmp):
         out, meta = impl_expand(spec, d)
         outcomes.append(out)
         replay_obj = {"kind": "spec", "spec": spec}
+        # (6) YAML glue: the block as written in YAML parses to the configuration the expansion is defined on
+        gp = yaml_glue_problem(spec)
+        if gp:
+            field = gp.split("differs from the written one in ['")[1].split("'")[0] if "differs from the written one in ['" in gp else "rejected"
+            ck.fail_input("C08:yaml-parse:%s" % field, gp, replay_obj)
         # (4) loader cross-check against an independent parse of the same file
         for b in spec["blocks"]:
             s = b["source"]
